@@ -48,12 +48,12 @@ func TimestampFromOOBData(oob []byte) (time.Time, error) {
 				var ts time.Time
 				if sec2 != 0 || nsec2 != 0 {
 					if sec0 != 0 || nsec0 != 0 || sec1 != 0 || nsec1 != 0 {
-						panic("unexpected timestamping behavior")
+						return time.Time{}, errUnexpectedData
 					}
 					ts = time.Unix(sec2, nsec2).UTC()
 				} else {
 					if sec1 != 0 || nsec1 != 0 || sec2 != 0 || nsec2 != 0 {
-						panic("unexpected timestamping behavior")
+						return time.Time{}, errUnexpectedData
 					}
 					ts = time.Unix(sec0, nsec0).UTC()
 				}
@@ -66,7 +66,11 @@ func TimestampFromOOBData(oob []byte) (time.Time, error) {
 				return time.Unix(ts.Unix()).UTC(), nil
 			}
 		}
-		oob = oob[unix.CmsgSpace(int(h.Len))-unix.CmsgSpace(0):]
+		adv := unix.CmsgSpace(int(h.Len)) - unix.CmsgSpace(0)
+		if adv > len(oob) {
+			return time.Time{}, errUnexpectedData
+		}
+		oob = oob[adv:]
 	}
 	return time.Time{}, errTimestampNotFound
 }
@@ -221,7 +225,11 @@ func timestampFromOOBData(oob []byte) (time.Time, uint32, error) {
 			id = seerr.Data
 			idSet = true
 		}
-		oob = oob[unix.CmsgSpace(int(h.Len))-unix.CmsgSpace(0):]
+		adv := unix.CmsgSpace(int(h.Len)) - unix.CmsgSpace(0)
+		if adv > len(oob) {
+			return time.Time{}, 0, errUnexpectedData
+		}
+		oob = oob[adv:]
 	}
 	if !tsSet || !idSet {
 		return time.Time{}, 0, errTimestampNotFound
